@@ -243,7 +243,8 @@ def run_pair(desc, ctx):
             argvs.append(["-m", rng.choice(["bs", "bss", "bsrel", "ign0"]), "-r", gen.fnum(rng.choice(inp["thresholds"])), "-x", "leadtime"])
         if inp["quantiles"]:
             argvs.append(["-m", "quantilescore", "-q", gen.fnum(rng.choice(inp["quantiles"])), "-x", "leadtime"])
-        if "pit" in inp["has"]:
+        if "pit" in inp["has"] and inp["variable"]["x0"] is None and inp["variable"]["x1"] is None:
+            # (with a discrete mass the PIT values are randomised: not repeatable, reported by C18)
             argvs.append(["-m", "pit", "-x", "time"])
         if inp["members"]:
             argvs.append(["-m", "bs", "-r", "7.3", "-x", "no"])
@@ -268,7 +269,18 @@ def run_pair(desc, ctx):
             same_desc = True
             if "location" not in av:
                 same_desc = da == db
-            if ca != cb or not same_desc:
+            def close6(x, y):
+                # a different summation order (shuffled dimension entries) may flip the last printed digit at a tie
+                if x == y:
+                    return True
+                try:
+                    fx, fy = float(x), float(y)
+                except ValueError:
+                    return False
+                if fx != fx or fy != fy:
+                    return fx != fx and fy != fy
+                return abs(fx - fy) <= 1.5e-5 * max(abs(fx), abs(fy))
+            if len(ca) != len(cb) or not all(close6(x, y) for x, y in zip(ca, cb)) or not same_desc:
                 ctx.violation("scores-differ|%s" % av[1], "verif <file> %s -type csv\ntext:\n%s\nNetCDF:\n%s"
                               % (" ".join(av), runner.strip_ansi(oa.stdout)[-400:], runner.strip_ansi(ob.stdout)[-400:]), case)
         # detection by content, not by name
